@@ -1427,7 +1427,11 @@ lbool CoreSMTSolver::search(int nof_conflicts)
         search_counter++;
         CRef confl = propagate();
         runPeriodic();
-        if (not okContinue()) { break; }
+        if (not okContinue()) {
+            // A conflict at level 0 must not be dropped: the propagation queue is already empty, it would never be found again
+            if (confl != CRef_Undef and decisionLevel() == 0) { return zeroLevelConflictHandler(); }
+            break;
+        }
         if (confl != CRef_Undef) {
             if (conflicts > conflictsUntilFlip) {
                 flipState = not flipState;
